@@ -12,6 +12,7 @@ ID = 'C15'
 BUDGET = {'quick': 600, 'thorough': 50000}
 WALL = {'quick': 150, 'thorough': 3000}
 CHUNK = 6
+REACH_N = 20
 DET_K = 3
 CASE_TIMEOUT = 600
 SELFTEST = {'quick': 8, 'thorough': 96}
